@@ -673,6 +673,32 @@ Section RSound.
       - apply Hmain; auto. unfold fresh in *. lia.
     Qed.
 
+    (* the values of the rewritten run, name by name: the reducer's output now holds what T2's output held, every other
+       name an equivalent value *)
+    Lemma tr_frame ef' y a' : evalg (rt_nodes (apply_tr g a)) e = Some ef' -> ef' y = Some a' ->
+      (y = ro /\ exists v, ef t2o = Some v /\ teq v a') \/ (y <> ro /\ exists v, ef y = Some v /\ teq v a').
+    Proof.
+      intros Hev' Hy. destruct tr_env as (ef0 & Hev0 & Hi). rewrite Hev' in Hev0. injection Hev0 as <-.
+      destruct (Nat.eq_dec y ro) as [->|Hne].
+      - left. split; [reflexivity|]. destruct T2_shape as (t2o' & rv & v2 & _ & Eo2 & _ & Ev2 & _).
+        assert (Et2 : t2o' = t2o) by (pose proof T2_outs as H; rewrite Eo2 in H; now injection H). subst t2o'.
+        destruct (proj1 Hi t2o v2 Ev2) as (w & Ew & Hr). rewrite rho_t2o in Ew. apply rel_other in Hr; [|intro E; exact (ro_ne_t2o (eq_sym E))].
+        exists v2. split; [exact Ev2|]. congruence.
+      - right. split; [exact Hne|].
+        assert (Hd : ef y <> None) by (apply (proj2 Hi); congruence).
+        destruct (ef y) as [v0|] eqn:Ey; [|congruence].
+        assert (Hy2 : y <> t2o).
+        { intro E. subst y. assert (Hnone : ef' t2o = None).
+          { apply (eval_undefined V sem _ _ _ t2o Hev').
+            - apply (proj2 Hssa). unfold defs. apply in_flat_map. exists T2. split; [exact HT2in|]. rewrite T2_outs. now left.
+            - rewrite apply_tr_eq. cbn [rt_nodes]. unfold defs. intro Hin. apply in_flat_map in Hin as (n' & Hn' & Hyo).
+              apply in_map_iff in Hn' as (n & <- & Hn). apply filter_In in Hn as [Hn Hk]. rewrite trn_outs in Hyo.
+              rewrite (outs_T2 n Hn Hyo) in Hk. rewrite keepb_T2 in Hk. discriminate. }
+          congruence. }
+        destruct (proj1 Hi y v0 Ey) as (w & Ew & Hr). rewrite (rho_other y Hy2) in Ew. apply (rel_other y) in Hr; [|exact Hne].
+        exists v0. split; [reflexivity|]. congruence.
+    Qed.
+
     Lemma tr_rm : (forall n y, In n (rt_nodes g) -> is_rm n = true -> In y (n_outs n) -> rt_const g y = None) ->
       forall n y, In n (rt_nodes (apply_tr g a)) -> is_rm n = true -> In y (n_outs n) -> rt_const (apply_tr g a) y = None.
     Proof.
@@ -778,6 +804,65 @@ Section RSound.
       eapply (tr_run g a e1); eassumption.
   Qed.
 
+  (* the values of the rewritten run of ONE rewrite, name by name (for the annotations other passes read) *)
+  Theorem tr_action_frame g T2 a e ef : radm g e -> In T2 (rt_nodes g) -> decide_tr g T2 = Some a -> evalg (rt_nodes g) e = Some ef ->
+    exists ro t2o, out1 (ra_red a) = Some ro /\ out1 (ra_T2 a) = Some t2o /\
+      forall ef' y a', evalg (rt_nodes (apply_tr g a)) (ext_env g a e) = Some ef' -> ef' y = Some a' ->
+        (y = S (max_name g) /\ exists l, ra_axes a = AxInput l /\ a' = mkZ (map Z.of_nat l)) \/
+        (y = ro /\ exists v, ef t2o = Some v /\ teq v a') \/ (y <> ro /\ exists v, ef y = Some v /\ teq v a').
+  Proof.
+    intros Hadm HT2in Hdec Hev.
+    destruct (decide_tr_facts g T2 a Hdec) as (p & q & xin & rin & rrest & ro & src & HeT2 & HT2 & Hi2 & Ho2 & Hpx & Hrm & Hir & HpT1 & HT1 & Hp1 & Hp2 &
+      Hinvok & Hkd & Hax & Hro & Hsrc & Hobs & Hcons & Hcaps & Hlen).
+    subst T2. set (e1 := ext_env g a e).
+    assert (Hadm1 : radm g e1).
+    { unfold e1, ext_env. destruct (ra_axes a); auto. apply radm_upd; auto. }
+    assert (Hev1 : exists ef1, evalg (rt_nodes g) e1 = Some ef1 /\ agree_except V [S (max_name g)] ef ef1).
+    { unfold e1, ext_env. destruct (ra_axes a) as [|l|l]; try (exists ef; split; [exact Hev | intros y _; reflexivity]).
+      apply (eval_agree V sem [S (max_name g)] (rt_nodes g) e _ ef (agree_upd e _ _)); auto. apply unmentioned_uses. lia. }
+    destruct Hev1 as (ef1 & Hev1 & Hag).
+    assert (Hfresh : match ra_axes a with
+                     | AxInput l => exists vnew, e1 (S (max_name g)) = Some vnew /\ denoteZ vnew = Some (map Z.of_nat l)
+                     | _ => True end).
+    { unfold e1, ext_env. destruct (ra_axes a) as [|l|l]; auto. exists (mkZ (map Z.of_nat l)). split; [|apply denote_mkZ].
+      unfold upd. now rewrite Nat.eqb_refl. }
+    pose proof (ra_ssa _ _ Hadm1) as Hssa1.
+    assert (Hconst1 : forall x l v, x <= max_name g -> rt_const g x = Some l -> ef1 x = Some v -> denoteZ v = Some l).
+    { intros x l v. exact (ra_const _ _ Hadm1 ef1 x l v Hev1). }
+    assert (Hredin : In (ra_red a) (rt_nodes g)) by exact (proj1 (producer_spec _ _ _ Hpx)).
+    assert (Ht2o : out1 (ra_T2 a) = Some (hd 0 (n_outs (ra_T2 a)))).
+    { unfold out1. destruct (n_outs (ra_T2 a)); [congruence | reflexivity]. }
+    exists ro, (hd 0 (n_outs (ra_T2 a))). split; [exact Hro|]. split; [exact Ht2o|].
+    intros ef' y a' Hev' Hy.
+    assert (Hfr : (y = ro /\ exists v, ef1 (t2o a) = Some v /\ teq v a') \/ (y <> ro /\ exists v, ef1 y = Some v /\ teq v a')).
+    { eapply (tr_frame g a e1); eassumption. }
+    assert (Hfresh_defs : ~ In (S (max_name g)) (defs (rt_nodes g))).
+    { intro Hin. unfold defs in Hin. apply in_flat_map in Hin as (m & Hm0 & Hyo).
+      assert (Hb2 : S (max_name g) <= max_name g) by (apply max_name_ge; right; exists m; split; auto; apply in_or_app; right; apply in_or_app; now right). lia. }
+    assert (Hold : forall z v, z <> S (max_name g) -> ef1 z = Some v -> ef z = Some v).
+    { intros z v Hz Ez. rewrite (Hag z); [exact Ez | intros [E|[]]; congruence]. }
+    assert (Ht2_ne : t2o a <> S (max_name g)).
+    { intro E. assert (Hb2 : t2o a <= max_name g).
+      { apply max_name_ge. right. exists (ra_T2 a). split; [exact HT2in|]. apply in_or_app. right. apply in_or_app. right.
+        unfold t2o. destruct (n_outs (ra_T2 a)); [congruence | now left]. }
+      lia. }
+    destruct Hfr as [[-> (v & Ev & Hv)]|[Hne (v & Ev & Hv)]].
+    - right. left. split; [reflexivity|]. exists v. split; [|exact Hv]. apply Hold; [exact Ht2_ne | exact Ev].
+    - destruct (Nat.eq_dec y (S (max_name g))) as [->|Hyf].
+      + destruct (ra_axes a) as [|l|l] eqn:Eax.
+        * right. right. split; [exact Hne|]. exists v. split; [|exact Hv]. unfold e1, ext_env in Hev1. rewrite Eax in Hev1. congruence.
+        * right. right. split; [exact Hne|]. exists v. split; [|exact Hv]. unfold e1, ext_env in Hev1. rewrite Eax in Hev1. congruence.
+        * left. split; [reflexivity|]. exists l. split; [reflexivity|].
+          (* the created name is not defined by a node of the new graph: its value is the one put in the environment *)
+          assert (He' : ef' (S (max_name g)) = e1 (S (max_name g))).
+          { destruct (e1 (S (max_name g))) as [vn|] eqn:E1.
+            - apply (eval_mono V sem _ e1 ef' _ vn Hev' E1). intro Hin.
+              pose proof (proj2 (ra_ssa _ _ (proj1 (tr_action_sound g (ra_T2 a) a e ef Hadm HT2in Hdec Hev))) _ Hin) as Hn. fold e1 in Hn. congruence.
+            - unfold e1, ext_env in E1. rewrite Eax in E1. unfold upd in E1. rewrite Nat.eqb_refl in E1. discriminate. }
+          rewrite Hy in He'. unfold e1, ext_env in He'. rewrite Eax in He'. unfold upd in He'. rewrite Nat.eqb_refl in He'. congruence.
+      + right. right. split; [exact Hne|]. exists v. split; [|exact Hv]. apply Hold; [exact Hyf | exact Ev].
+  Qed.
+
   (* the final environment differs from the given one only where the rewritten graph's constant annotation says what the
      value is (the initializers the pass created) *)
   Definition env_ext (g' : rgraphT) (e e' : env V) : Prop :=
@@ -864,6 +949,23 @@ Theorem transpose_reduce_action_sound (A : Type) sem :
 Proof.
   intros Hp Ht reduce (H1 & H2 & H3 & H4) denoteZ Hd (Hr1 & Hr2) mkZ Hm.
   exact (tr_action_sound A sem Hp Ht reduce H1 H2 H3 H4 denoteZ Hd Hr1 Hr2 mkZ Hm).
+Qed.
+
+Theorem transpose_reduce_action_frame (A : Type) sem :
+  (forall op ats vs vs' o, Forall2 teq vs vs' -> sem op ats vs = Some o -> exists o', sem op ats vs' = Some o' /\ Forall2 teq o o') ->
+  sem_transpose_spec A sem op_type ->
+  forall reduce, reduce_laws A reduce ->
+  forall denoteZ, (forall v v', teq v v' -> denoteZ v = denoteZ v') -> sem_reducemean_spec A sem op_type denoteZ reduce ->
+  forall mkZ : list Z -> tensor A, (forall l, denoteZ (mkZ l) = Some l) ->
+  forall g T2 a e ef, radm A sem denoteZ g e -> In T2 (rt_nodes g) -> decide_tr g T2 = Some a ->
+    eval (tensor A) sem (rt_nodes g) e = Some ef ->
+    exists ro t2o, out1 (ra_red a) = Some ro /\ out1 (ra_T2 a) = Some t2o /\
+      forall ef' y a', eval (tensor A) sem (rt_nodes (apply_tr g a)) (ext_env A mkZ g a e) = Some ef' -> ef' y = Some a' ->
+        (y = S (max_name g) /\ exists l, ra_axes a = AxInput l /\ a' = mkZ (map Z.of_nat l)) \/
+        (y = ro /\ exists v, ef t2o = Some v /\ teq v a') \/ (y <> ro /\ exists v, ef y = Some v /\ teq v a').
+Proof.
+  intros Hp Ht reduce (H1 & H2 & H3 & H4) denoteZ Hd (Hr1 & Hr2) mkZ Hm.
+  exact (tr_action_frame A sem Hp Ht reduce H1 H2 H3 H4 denoteZ Hd Hr1 Hr2 mkZ Hm).
 Qed.
 
 Theorem transpose_reduce_pass_sound (A : Type) sem :
